@@ -15,7 +15,7 @@ RULE_B = ("a real CompassApp built from TOML on a generated 5x5 grid network (+ 
           "weight estimate, degenerate sections) / duplicates, weight estimates absent / numeric (0, negative, 1e308) / "
           "ill-typed; each case = one batch order x one configuration (configured parallelism 0,1,2,3,8,16, per-run override "
           "1..16 and > n, load balancer plugin on/off, both persistence policies, file sink (newline-delimited JSON, JSON array "
-          "or CSV through the real format_response; file_flush_rate unset,1,2,3,4,7,100,> batch: every record must be in the file "
+          "or CSV - optional mappings, or plain route.* columns only - with records and in-place rewriting through the real format_response; several runs on one application instance with changing per-run output policies (a missing output file is the outcome wr=<absent>); file_flush_rate unset,1,2,3,4,7,100,> batch: every record must be in the file "
           "when run returns) or none, traversal route format edge_id/wkt/json/geo_json/wkb by variant, origin == destination "
           "queries (empty route) in the mix, CompassApp::run under catch_unwind (a panic is the outcome `Panic`), rayon pool of "
           "1,2,4,16 threads), run 2-3 times (must agree); canonical response = (request, error text | route cost, "
